@@ -4,6 +4,7 @@ import (
 	"fmt"
 	"math"
 	"strings"
+	"unicode/utf8"
 
 	"github.com/robertkrimen/otto/token"
 )
@@ -142,6 +143,27 @@ const (
 	lessThanUndefined
 )
 
+// stringLessThan compares two strings by UTF-16 code units (ES5 11.8.5).
+// The byte order of UTF-8 is code point order, which differs from code unit
+// order only between a supplementary character (encoded with surrogates
+// 0xD800-0xDFFF) and a BMP character above the surrogate range.
+func stringLessThan(x, y string) bool {
+	for len(x) > 0 && len(y) > 0 {
+		rx, sx := utf8.DecodeRuneInString(x)
+		ry, sy := utf8.DecodeRuneInString(y)
+		if rx != ry {
+			if rx >= 0x10000 && ry < 0x10000 {
+				rx = 0xd800 + (rx-0x10000)>>10
+			} else if ry >= 0x10000 && rx < 0x10000 {
+				ry = 0xd800 + (ry-0x10000)>>10
+			}
+			return rx < ry
+		}
+		x, y = x[sx:], y[sy:]
+	}
+	return len(x) < len(y)
+}
+
 func calculateLessThan(left Value, right Value, leftFirst bool) lessThanResult {
 	var x, y Value
 	if leftFirst {
@@ -160,8 +182,7 @@ func calculateLessThan(left Value, right Value, leftFirst bool) lessThanResult {
 		}
 		result = x < y
 	} else {
-		x, y := x.string(), y.string()
-		result = x < y
+		result = stringLessThan(x.string(), y.string())
 	}
 
 	if result {
